@@ -737,6 +737,14 @@ func (i *instance) beginNextRound() {
 // See shouldSkipToRound.
 func (i *instance) skipToRound(round uint64, chain *ECChain, justification *Justification) {
 	i.log("skipping from round %d to round %d with %s", i.current.Round, round, i.proposal.String())
+	if i.current.Phase == QUALITY_PHASE {
+		// Leaving QUALITY without completing it: settle the proposal and its candidate
+		// prefixes from the QUALITY messages received so far, as tryQuality would.
+		// Otherwise the proposal carried into CONVERGE is not a candidate and the round
+		// may end with no acceptable value at all.
+		i.proposal = i.quality.FindStrongQuorumValueForLongestPrefixOf(i.input)
+		i.addCandidatePrefixes(i.proposal)
+	}
 	i.current.Round = round
 	metrics.currentRound.Record(context.TODO(), int64(i.current.Round))
 	metrics.skipCounter.Add(context.TODO(), 1, metric.WithAttributes(attrSkipToRound))
